@@ -30,8 +30,10 @@ from sim import factories  # noqa: E402
 OBJLIST = frozenset(
     "layers classes styles symbols labels outputformats features scaletokens composites joins".split()
 )
-KEYS = ["name", "NAME", "Name", "layers", "LAYERS", "Layers", "type", "TYPE", "x", "X", "classes", "Web"]
+KEYS = ["name", "NAME", "Name", "layers", "LAYERS", "Layers", "type", "TYPE", "x", "X", "classes", "Web", "", "two words", "Two Words"]
 KEYS3 = ["name", "NAME", "layers", "Layers", "x", "X"]
+# keys whose lower() and casefold() differ, or whose upper-case form lowers differently (final sigma)
+KEYS_UNI = ["Straße", "STRASSE", "straße", "ΟΔΟΣ", "οδος", "οδοσ", "İstanbul", "name", "NAME"]
 
 
 class M:
@@ -228,6 +230,8 @@ class C17(core.Check):
         r = s("ops")
         n = k.choice([1, 2, 3, 3, 4, 6, 8, 12, 20, 40])
         keys = KEYS3 if k.random() < 0.5 else KEYS
+        if k.random() < 0.2:
+            keys = KEYS_UNI
         weights = dict(self.OPS)
         # swarm: switch off a random subset of operation kinds per run
         for name in list(weights):
@@ -260,11 +264,11 @@ class C17(core.Check):
                 ops.append([name, who, key, r.random() < 0.7, self.gen_value(r)])
             elif name == "update":
                 pairs = [[r.choice(keys), self.gen_value(r, 1)] for _ in range(r.randint(0, 4))]
-                ops.append([name, who, r.choice(["dict", "pairs", "kwargs", "cidict", "od", "both"]), pairs,
+                ops.append([name, who, r.choice(["dict", "pairs", "kwargs", "cidict", "od", "both", "iter", "gen", "zip", "proxy", "userdict", "tuplepairs"]), pairs,
                             [[r.choice(keys), self.gen_value(r, 1)] for _ in range(r.randint(0, 2))]])
             elif name == "construct":
                 pairs = [[r.choice(keys), self.gen_value(r, 1)] for _ in range(r.randint(0, 4))]
-                ops.append([name, r.choice(["none", "ci", "flaky"]), r.choice(["dict", "pairs", "kwargs", "member", "od"]), pairs, who])
+                ops.append([name, r.choice(["none", "ci", "flaky"]), r.choice(["dict", "pairs", "kwargs", "member", "od", "iter", "gen"]), pairs, who])
             elif name in ("len", "keys", "items", "iter", "clear", "values"):
                 ops.append([name, who])
             elif name == "eq":
@@ -458,6 +462,31 @@ class C17(core.Check):
                     elif kind == "kwargs":
                         rr = core.call(lambda: real.update(**dict(rp)))
                         mr = core.call(lambda: m_update([], dict(mp_)))
+                    elif kind in ("proxy", "userdict", "tuplepairs"):
+                        import collections
+                        import types
+
+                        if kind == "proxy":
+                            src_m = types.MappingProxyType(dict(rp))
+                            mexp = list(dict(mp_).items())
+                        elif kind == "userdict":
+                            src_m = collections.UserDict(dict(rp))
+                            mexp = list(dict(mp_).items())
+                        else:
+                            src_m = tuple((k_, v_) for k_, v_ in rp)
+                            mexp = mp_
+                        rr = core.call(lambda: real.update(src_m))
+                        mr = core.call(lambda: m_update(mexp, {}))
+                    elif kind in ("iter", "gen", "zip"):
+                        # one-shot iterables of pairs: consumed exactly once, like dict.update does
+                        if kind == "iter":
+                            src_it = iter(rp)
+                        elif kind == "gen":
+                            src_it = ((k_, v_) for k_, v_ in rp)
+                        else:
+                            src_it = zip([k_ for k_, _ in rp], [v_ for _, v_ in rp])
+                        rr = core.call(lambda: real.update(src_it))
+                        mr = core.call(lambda: m_update(mp_, {}))
                     elif kind == "cidict":
                         src = CI(None)
                         for k, v in rp:
@@ -482,6 +511,10 @@ class C17(core.Check):
                         mr = core.call(lambda: M(fk, list(OrderedDict(mp_).items())))
                     elif kind == "pairs":
                         rr = core.call(lambda: CI(f, rp))
+                        mr = core.call(lambda: M(fk, mp_))
+                    elif kind in ("iter", "gen"):
+                        src_it = iter(rp) if kind == "iter" else ((k_, v_) for k_, v_ in rp)
+                        rr = core.call(lambda: CI(f, src_it))
                         mr = core.call(lambda: M(fk, mp_))
                     elif kind == "kwargs":
                         rr = core.call(lambda: CI(f, **dict(rp)))
